@@ -80,7 +80,7 @@ def decDetails : Nat → RawDetails → Bytes → Option RawDetails
     | none => none
     | some (num, wt, rest) =>
       if wt == 4 then none else
-      let unknown := match skipValue (fuel + 1) num wt rest with
+      let unknown := fun (_ : Unit) => match skipValue (fuel + 1) num wt rest with
         | none => none
         | some r => decDetails fuel d r
       let str (k : Bytes → RawDetails) := match decBytes rest with
@@ -99,18 +99,18 @@ def decDetails : Nat → RawDetails → Bytes → Option RawDetails
             | none => none
             | some vs => decDetails fuel (k (cur ++ vs.map (· % 2 ^ 32))) r
         else if wt == 0 then vint (fun v => k (cur ++ [v % 2 ^ 32]))
-        else unknown
-      if num == 1 then (if wt == 2 then str (fun v => { d with name := v }) else unknown)
+        else unknown ()
+      if num == 1 then (if wt == 2 then str (fun v => { d with name := v }) else unknown ())
       else if num == 2 then rep d.ips (fun l => { d with ips := l })
       else if num == 3 then rep d.subnets (fun l => { d with subnets := l })
-      else if num == 4 then (if wt == 2 then str (fun v => { d with groups := d.groups ++ [v] }) else unknown)
-      else if num == 5 then (if wt == 0 then vint (fun v => { d with notBefore := uToInt64 v }) else unknown)
-      else if num == 6 then (if wt == 0 then vint (fun v => { d with notAfter := uToInt64 v }) else unknown)
-      else if num == 7 then (if wt == 2 then byt (fun v => { d with publicKey := v }) else unknown)
-      else if num == 8 then (if wt == 0 then vint (fun v => { d with isCA := v != 0 }) else unknown)
-      else if num == 9 then (if wt == 2 then byt (fun v => { d with issuer := v }) else unknown)
-      else if num == 100 then (if wt == 0 then vint (fun v => { d with curve := v % 2 ^ 32 }) else unknown)
-      else unknown
+      else if num == 4 then (if wt == 2 then str (fun v => { d with groups := d.groups ++ [v] }) else unknown ())
+      else if num == 5 then (if wt == 0 then vint (fun v => { d with notBefore := uToInt64 v }) else unknown ())
+      else if num == 6 then (if wt == 0 then vint (fun v => { d with notAfter := uToInt64 v }) else unknown ())
+      else if num == 7 then (if wt == 2 then byt (fun v => { d with publicKey := v }) else unknown ())
+      else if num == 8 then (if wt == 0 then vint (fun v => { d with isCA := v != 0 }) else unknown ())
+      else if num == 9 then (if wt == 2 then byt (fun v => { d with issuer := v }) else unknown ())
+      else if num == 100 then (if wt == 0 then vint (fun v => { d with curve := v % 2 ^ 32 }) else unknown ())
+      else unknown ()
 
 def decCert : Nat → RawCert → Bytes → Option RawCert
   | 0, _, _ => none
@@ -120,7 +120,7 @@ def decCert : Nat → RawCert → Bytes → Option RawCert
     | none => none
     | some (num, wt, rest) =>
       if wt == 4 then none else
-      let unknown := match skipValue (fuel + 1) num wt rest with
+      let unknown := fun (_ : Unit) => match skipValue (fuel + 1) num wt rest with
         | none => none
         | some r => decCert fuel c r
       if num == 1 && wt == 2 then
@@ -133,7 +133,7 @@ def decCert : Nat → RawCert → Bytes → Option RawCert
         match decBytes rest with
         | none => none
         | some (v, r) => decCert fuel { c with signature := v } r
-      else unknown
+      else unknown ()
 
 /-- `proto.Unmarshal(b, &RawNebulaCertificate{})`. -/
 def protoUnmarshal (b : Bytes) : Option RawCert := decCert (b.length + 1) {} b
